@@ -7,7 +7,6 @@ use crate::world::*;
 pub enum Level {
     Full,
     Mid,
-    Small,
 }
 
 #[derive(Clone, Copy, Debug, PartialEq, Eq)]
@@ -32,6 +31,8 @@ pub enum Scenario {
     File { handle: Handle, initial: Vec<u8>, level: Level },
     /// path "f" in a given initial condition, alphabet = every OpenOptions combination + probes
     Open { init: OpenInit, level: Level },
+    /// one read/write handle on "f" = "ABCD"; offsets and sizes at the edge of the signed 64-bit range
+    FileExtreme,
     /// anonymous pipe; reads are enabled only when they cannot block (data buffered or writer closed)
     Pipe { level: Level },
     /// zero-capacity reads on an EMPTY pipe whose writer is open (the OS answers 0 at once)
@@ -115,16 +116,25 @@ pub fn file_len(st: &State) -> Option<u64> {
 impl Scenario {
     pub fn family(&self) -> &'static str {
         match self {
-            Scenario::File { .. } => "file",
+            Scenario::File { .. } | Scenario::FileExtreme => "file",
             Scenario::Open { .. } => "open",
             Scenario::Pipe { .. } | Scenario::PipeZero => "pipe",
             Scenario::Dir { .. } => "dir",
         }
     }
 
+    pub fn snap_mode(&self) -> SnapMode {
+        match self {
+            Scenario::File { .. } | Scenario::FileExtreme => SnapMode::FileFd,
+            Scenario::Open { .. } | Scenario::Dir { .. } => SnapMode::Walk,
+            Scenario::Pipe { .. } | Scenario::PipeZero => SnapMode::None,
+        }
+    }
+
     pub fn name(&self) -> String {
         match self {
             Scenario::File { handle, initial, level } => format!("file.{handle:?}.init{}.{level:?}", initial.len()),
+            Scenario::FileExtreme => "file.extreme-offsets".into(),
             Scenario::Open { init, level } => format!("open.{init:?}.{level:?}"),
             Scenario::Pipe { level } => format!("pipe.{level:?}"),
             Scenario::PipeZero => "pipe.zero-read-on-empty".into(),
@@ -136,7 +146,7 @@ impl Scenario {
     /// API (opening the handle, creating the pipe) is returned as observations and compared.
     pub fn setup(&self, w: &mut dyn World) -> Vec<(String, Obs)> {
         let mut out = Vec::new();
-        let dir = w.dir().to_path_buf();
+        let dir = w.base().dir.clone();
         let must = |r: std::io::Result<()>| {
             if let Err(e) = r {
                 vcore::machinery_error(&format!("scenario setup failed in {dir:?}: {e}"));
@@ -144,7 +154,7 @@ impl Scenario {
         };
         match self {
             Scenario::File { handle, initial, .. } => {
-                must(std::fs::write(dir.join("f"), initial));
+                must(w.base().create_probe_file(initial));
                 let fl = match handle {
                     Handle::Rw => OpenFlags::from_bits(1 | 2),
                     Handle::Ro => OpenFlags::from_bits(1),
@@ -152,6 +162,12 @@ impl Scenario {
                     Handle::Ap => OpenFlags::from_bits(1 | 2 | 4),
                 };
                 let op = Op::Open(fl);
+                let o = w.exec(&op);
+                out.push((format!("{op:?}"), o));
+            }
+            Scenario::FileExtreme => {
+                must(w.base().create_probe_file(b"ABCD"));
+                let op = Op::Open(OpenFlags::from_bits(1 | 2));
                 let o = w.exec(&op);
                 out.push((format!("{op:?}"), o));
             }
@@ -184,6 +200,23 @@ impl Scenario {
                 }
                 let len = file_len(st).unwrap_or(0);
                 file_ops(&mut a, len, step, *level);
+            }
+            Scenario::FileExtreme => {
+                if !st.has_file {
+                    return a;
+                }
+                for off in [i64::MAX as u64, 1u64 << 63, u64::MAX] {
+                    a.push(Op::ReadAt { off, shape: (0, 4) });
+                    a.push(Op::WriteAt { off, data: payload(step, 1) });
+                    a.push(Op::WriteAt { off, data: vec![] });
+                    a.push(Op::ReadVAt { off, members: vec![(2, 2), (2, 2)] });
+                    a.push(Op::WriteVAt { off, parts: parts(step, &[1, 1]) });
+                }
+                a.push(Op::SetLen(1u64 << 63));
+                a.push(Op::SetLen(u64::MAX));
+                // probes that make a moved file position / changed content visible
+                a.push(Op::ReadAt { off: 0, shape: (0, 4) });
+                a.push(Op::Metadata);
             }
             Scenario::Open { level, .. } => {
                 let combos: Vec<u32> = match level {
@@ -251,8 +284,6 @@ impl Scenario {
 }
 
 fn file_ops(a: &mut Vec<Op>, len: u64, step: usize, level: Level) {
-    let s = |x: &str| x.to_string();
-    let _ = s;
     match level {
         Level::Full => {
             let offs = offsets(len, &["0", "1", "len-1", "len", "len+3"]);
@@ -315,75 +346,50 @@ fn file_ops(a: &mut Vec<Op>, len: u64, step: usize, level: Level) {
             a.push(Op::SyncData);
             a.push(Op::Metadata);
         }
-        Level::Small => {
-            for &off in &offsets(len, &["0", "len-1", "len+3"]) {
-                for n in [1usize, 4] {
-                    a.push(Op::WriteAt { off, data: payload(step, n) });
-                }
-            }
-            for &off in &offsets(len, &["0", "len-1", "len+3"]) {
-                for shape in [(0usize, 4usize), (2, 4)] {
-                    a.push(Op::ReadAt { off, shape });
-                }
-            }
-            for &off in &offsets(len, &["len-1"]) {
-                for l in &LAYOUTS[2..] {
-                    a.push(Op::WriteVAt { off, parts: parts(step, l) });
-                }
-            }
-            for l in &LAYOUTS[2..] {
-                for f in [Fill::Spare, Fill::Init] {
-                    a.push(Op::ReadVAt { off: 0, members: members(l, f) });
-                }
-            }
-            for &n in &offsets(len, &["0", "len+3"]) {
-                a.push(Op::SetLen(n));
-            }
-            a.push(Op::SyncData);
-            a.push(Op::Metadata);
-        }
     }
 }
 
 fn dir_ops(a: &mut Vec<Op>, step: usize, level: Level) {
     let s = |x: &str| x.to_string();
     let full = level == Level::Full;
-    for p in ["b", "d", "a", "n/m"] {
+    let pick = |f: &[&'static str], m: &[&'static str]| -> Vec<&'static str> { if full { f.to_vec() } else { m.to_vec() } };
+    let pick2 = |f: &[(&'static str, &'static str)], m: &[(&'static str, &'static str)]| -> Vec<(&'static str, &'static str)> { if full { f.to_vec() } else { m.to_vec() } };
+    for p in pick(&["b", "d", "a", "n/m"], &["b", "n/m"]) {
         a.push(Op::CreateDir(s(p)));
     }
-    for p in ["b", "d", "a", "n/m", "a/z"] {
+    for p in pick(&["b", "d", "a", "n/m", "a/z"], &["d", "n/m", "a/z"]) {
         a.push(Op::CreateDirAll(s(p)));
     }
-    for p in ["a", "b", "d", "e/x"] {
+    for p in pick(&["a", "b", "d", "e/x"], &["a", "d"]) {
         a.push(Op::RemoveFile(s(p)));
     }
-    for p in ["d", "e", "a", "b"] {
+    for p in pick(&["d", "e", "a", "b"], &["d", "e"]) {
         a.push(Op::RemoveDir(s(p)));
     }
-    for (x, y) in [("a", "b"), ("a", "d"), ("d", "e"), ("d", "b"), ("b", "a"), ("a", "e/x"), ("e", "d")] {
+    for (x, y) in pick2(&[("a", "b"), ("a", "d"), ("d", "e"), ("d", "b"), ("b", "a"), ("a", "e/x"), ("e", "d")], &[("a", "b"), ("d", "e"), ("a", "e/x")]) {
         a.push(Op::Rename(s(x), s(y)));
     }
-    for (x, y) in [("a", "b"), ("a", "e/x"), ("d", "b"), ("b", "c")] {
+    for (x, y) in pick2(&[("a", "b"), ("a", "e/x"), ("d", "b"), ("b", "c")], &[("a", "b"), ("d", "b")]) {
         a.push(Op::HardLink(s(x), s(y)));
     }
-    for (x, y) in [("a", "l"), ("b", "l"), ("a", "a"), ("d", "l")] {
+    for (x, y) in pick2(&[("a", "l"), ("b", "l"), ("a", "a"), ("d", "l")], &[("a", "l"), ("b", "l")]) {
         a.push(Op::Symlink(s(x), s(y)));
     }
-    for p in if full { &["a", "b", "d", "l", "e/x"][..] } else { &["a", "b", "d", "l"][..] } {
+    for p in pick(&["a", "b", "d", "l", "e/x"], &["a", "l", "d"]) {
         a.push(Op::ReadFile(s(p)));
     }
     a.push(Op::WriteFile(s("a"), payload(step, 1)));
     a.push(Op::WriteFile(s("b"), payload(step, 4)));
-    a.push(Op::WriteFile(s("d"), payload(step, 2)));
-    a.push(Op::WriteFile(s("n/m"), payload(step, 2)));
     a.push(Op::WriteFile(s("l"), payload(step, 2)));
     if full {
+        a.push(Op::WriteFile(s("d"), payload(step, 2)));
+        a.push(Op::WriteFile(s("n/m"), payload(step, 2)));
         a.push(Op::WriteFile(s("b"), vec![]));
     }
-    for p in ["a", "d", "l", "b"] {
+    for p in pick(&["a", "d", "l", "b"], &["a", "l"]) {
         a.push(Op::PathMeta(s(p)));
     }
-    for p in ["a", "l", "b"] {
+    for p in pick(&["a", "l", "b"], &["l"]) {
         a.push(Op::SymlinkMeta(s(p)));
     }
 }
